@@ -1872,14 +1872,20 @@ class NoteRestToken(ComplexToken):
         # Build agnostic pitch (if requested and applicable)
         agnostic_pitch_representation = None
         if convert_pitch_to_agnostic_fn is not None:
-            only_pitches_and_alterations = [
+            # only the pitch letters are converted; the alteration (accidental and its display suffix,
+            # e.g. 'n' or '#X') is not part of the staff position and is carried over verbatim
+            only_pitches = [
                 s for s in pitch_duration_tokens_sorted
-                if s.category in {TokenCategory.PITCH, TokenCategory.ALTERATION}
+                if s.category == TokenCategory.PITCH
             ]
-            if only_pitches_and_alterations:
+            only_alterations = [
+                s for s in pitch_duration_tokens_sorted
+                if s.category == TokenCategory.ALTERATION
+            ]
+            if only_pitches:
                 agnostic_pitch_representation = convert_pitch_to_agnostic_fn(
-                    "".join(s.encoding for s in only_pitches_and_alterations)
-                )
+                    "".join(s.encoding for s in only_pitches)
+                ) + "".join(s.encoding for s in only_alterations)
 
         if agnostic_pitch_representation is not None:
             # When agnostic, add the duration part explicitly, then the agnostic pitch
